@@ -34,8 +34,21 @@ impl builtins::Command for ExecCommand {
             // When no arguments are present, then there's nothing for us to execute -- but we need
             // to ensure that any redirections setup for this builtin get applied to the calling
             // shell instance.
-            #[allow(clippy::needless_collect)]
-            let fds: Vec<_> = context.iter_fds().collect();
+            // Only the redirections of this `exec` become permanent -- not those of a compound
+            // command or function call it happens to run in, which end with that command.
+            let own_fds = context.params.own_redirected_fds().to_vec();
+            let fds: Vec<_> = context
+                .shell
+                .open_files()
+                .iter_fds()
+                .filter(|(fd, _)| !own_fds.contains(fd))
+                .map(|(fd, file)| (fd, file.clone()))
+                .chain(
+                    own_fds
+                        .iter()
+                        .filter_map(|fd| context.try_fd(*fd).map(|file| (*fd, file))),
+                )
+                .collect();
 
             context.shell.replace_open_files(fds.into_iter());
             return Ok(ExecutionResult::success());
